@@ -9,7 +9,7 @@ import os
 import subprocess
 import sys
 
-from .. import clih, common, explore, mcharness, vmp
+from .. import bigdata, clih, common, explore, mcharness, vmp
 
 PROP = "C06"
 MOD = "vf.checks.c06"
@@ -368,6 +368,76 @@ def run_free(job):
     return dict(job=job, failure=mcharness.diff_summaries(prep["ref"], s))
 
 
+REALISTIC = ["paired-interleaved-suffix", "paired-suffix", "ties-demux", "barcodes-384", "linked-polya-q"]
+
+
+def run_realistic(name):
+    """Conformance at realistic size: real processes, DEFAULT --buffer-size, 15-30 MB of input; 3 cores must give the one-core
+    result (files byte for byte, JSON report)."""
+    wd = clih.fresh_dir("c06big-" + name)
+    ind = os.path.join(wd, "in")
+    os.makedirs(ind, exist_ok=True)
+    i1, i2 = os.path.join(ind, "r1.fq"), os.path.join(ind, "r2.fq")
+    if name.startswith("paired"):
+        bigdata.paired(i1, i2)
+        inputs = [i1, i2]
+        base = ["-a", f"a1={bigdata.TRUSEQ1}", "-A", f"a2={bigdata.TRUSEQ2}", "-y", " sample=LIB0423_S7 adapter={name}", "-m", "20"]
+        outs = (lambda d: ["--interleaved", "-o", os.path.join(d, "out.fq")]) if "interleaved" in name else \
+            (lambda d: ["-o", os.path.join(d, "o1.fq"), "-p", os.path.join(d, "o2.fq")])
+    elif name == "ties-demux":
+        stem = "GATCGGAAGAGCACACGTCTGAACTCCAGTCACGGCTAC"
+        ads = [stem + t for t in ("ATCACGATCTCGTATGCCGTCTTC", "CGATGTATCTCGTATGCCGTCTTC", "TTAGGCATCTCGTATGCCGTCTTC", "TGACCAATCTCGTATGCCGTCTTC",
+                                  "ACAGTGATCTCGTATGCCGTCTTC", "GCCAATATCTCGTATGCCGTCTTC")]
+        bigdata.single_ties(i1, ads)
+        inputs = [i1]
+        base = [x for k, a in enumerate(ads) for x in ("-a", f"index{k + 1:02d}={a}")]
+        outs = lambda d: ["--info-file", os.path.join(d, "info.tsv"), "-o", os.path.join(d, "demux-{name}.fq")]
+    elif name == "barcodes-384":
+        bcs = bigdata.barcodes(384)
+        fa = os.path.join(ind, "bc.fa")
+        clih.write_text(fa, "".join(f">bc{k:03d}\n{b}\n" for k, b in enumerate(bcs)))
+        bigdata.barcoded(i1, bcs)
+        inputs = [i1]
+        base = ["-e", "0.1", "-g", f"^file:{fa}"]
+        outs = lambda d: ["--info-file", os.path.join(d, "info.tsv"), "-o", os.path.join(d, "out.fq")]
+    else:
+        front, back = "ACGTTGCAAGCTTGCATGCCTGCAGGTCGA", "TTGGCCAATTGGCCAAGGATCCTCTAGAGT"
+        bigdata.linked(i1, front, back)
+        inputs = [i1]
+        base = ["-a", f"amplicon={front}...{back}", "--poly-a", "-q", "20", "--max-n", "5", "-M", "500"]
+        outs = lambda d: ["-o", os.path.join(d, "out.fq")]
+    res = {}
+    for cores in (1, 3):
+        d = os.path.join(wd, f"j{cores}")
+        os.makedirs(d, exist_ok=True)
+        argv = ["-j", str(cores), "--json", os.path.join(d, "report.json")] + base + outs(d) + inputs
+        try:
+            r = common.run_group([common.PY, "-m", "cutadapt"] + argv, timeout=600)
+        except subprocess.TimeoutExpired:
+            clih.rmtree(wd)
+            return dict(name=name, failure=f"realistic-size run with {cores} core(s) did not terminate within 600 s", bytes=0)
+        res[cores] = (r.returncode, r.stderr.decode(errors="replace")[-300:], mcharness.collect_outputs(d, skip=("report.json",)),
+                      mcharness.norm_json(os.path.join(d, "report.json")))
+    size = sum(os.path.getsize(p) for p in inputs)
+    fail = None
+    (e1, err1, o1, j1), (e3, err3, o3, j3) = res[1], res[3]
+    if e1 != 0:
+        fail = f"one-core run failed: {e1} {err1}"
+    elif e3 != e1:
+        fail = f"exit status {e3} with 3 cores ({err3}) but {e1} with one core"
+    elif sorted(o1) != sorted(o3):
+        fail = f"set of output files differs: {sorted(o3)[:5]} vs {sorted(o1)[:5]}"
+    else:
+        for n in sorted(o1):
+            if o1[n] != o3[n]:
+                fail = f"output file {n} differs from the one-core run ({len(o3[n])} vs {len(o1[n])} bytes)"
+                break
+        if fail is None and j1 != j3:
+            fail = "JSON report differs from the one-core run at " + str(mcharness._first_json_diff(j1, j3))
+    clih.rmtree(wd)
+    return dict(name=name, failure=fail, bytes=size)
+
+
 def run(tier):
     R = common.Result(PROP, tier, "model_checking")
     tasks = plan(tier)
@@ -434,6 +504,12 @@ def run(tier):
             ci, workers, chunks = r["job"]
             R.violation(f"free-running:{cfgs[ci]['name']}", "real OS processes: " + r["failure"],
                         dict(config=cfgs[ci]["name"], workers=workers, chunks=chunks, argv=cfgs[ci]["argv"]))
+    # conformance at realistic size (default buffer size, 15-30 MB inputs)
+    big = common.pmap(MOD, "run_realistic", REALISTIC)
+    for r in big:
+        if r["failure"]:
+            R.violation(f"realistic-size:{r['name']}", "real OS processes, default --buffer-size: " + r["failure"], dict(scenario=r["name"]))
+    R.coverage["realistic_size_runs"] = [dict(scenario=r["name"], input_bytes=r["bytes"], cores=[1, 3]) for r in big]
     executions = sum(v["executions"] for v in per_task.values())
     table = []
     for t, v in per_task.items():
@@ -476,6 +552,10 @@ def replay(path):
         v = json.load(f)
     print(json.dumps(v, indent=1)[:3000])
     c = v["case"]
+    if "scenario" in c:
+        r = run_realistic(c["scenario"])
+        print("replayed:", r["failure"] or "identical to the one-core run")
+        return 1 if r["failure"] else 0
     names = [x["name"] for x in configs()]
     ci = names.index(c["config"])
     prep = prepare(ci, c["workers"], c["chunks"])
